@@ -47,8 +47,8 @@ def run_impl(lines, fs="shm", fault=None, crash_at=None, clock=None, noatime=Fal
         env["KSHIM_GRAN_NS"] = str(gran)
     text = "\n".join(("root " + root) if l.startswith("root") else l for l in lines) + "\n"
     try:
-        p = subprocess.run([harness or C.KHARNESS_REL, "scenario"], input=text, stdout=subprocess.PIPE, stderr=subprocess.PIPE, env=env, text=True, timeout=timeout)
-        log = open(logp).read().split("\n") if os.path.exists(logp) else []
+        p = subprocess.run([harness or C.KHARNESS_REL, "scenario"], input=text, stdout=subprocess.PIPE, stderr=subprocess.PIPE, env=env, text=True, encoding="utf-8", errors="surrogateescape", timeout=timeout)
+        log = open(logp, encoding="utf-8", errors="surrogateescape").read().split("\n") if os.path.exists(logp) else []
         results, snaps = parse_stdout(p.stdout)
         steps = T.parse_log(log, root)
         return ImplRun(results, snaps, steps, log, p.returncode, p.stdout)
@@ -82,7 +82,7 @@ def augment(lines, impl, gran=None, noatime=False, fault_by_step=None):
 
 
 def run_model(lines, timeout=300):
-    p = subprocess.run([C.KMODEL, "scenario"], input="\n".join(lines) + "\n", stdout=subprocess.PIPE, stderr=subprocess.PIPE, text=True, timeout=timeout)
+    p = subprocess.run([C.KMODEL, "scenario"], input="\n".join(lines) + "\n", stdout=subprocess.PIPE, stderr=subprocess.PIPE, text=True, encoding="utf-8", errors="surrogateescape", timeout=timeout)
     results, snaps = parse_stdout(p.stdout)
     steps = T.parse_log(p.stdout.split("\n"), "")
     return ImplRun(results, snaps, steps, p.stdout.split("\n"), p.returncode, p.stdout + p.stderr)
